@@ -422,12 +422,17 @@ theorem dt_execC (x : DX) (o : COp) : KeepsD x (execC o) := by
     split
     · exact hoare_conseq (hoare_of_keeps (keeps_of_frameD (fd_emit _) (IP x))) (fun _ h => h.1) (fun _ _ h => h) (fun _ h => h)
     · rename_i hnone
-      intro s ⟨hs, he⟩
-      subst he
-      refine hoare_newd x o k hn s0 ⟨hs, ?_⟩
-      cases hl : alookup s0.srcs k with
-      | none => rfl
-      | some v => simp [hl] at hnone
+      apply hoare_bind (fun _ s => I x s ∧ alookup s.srcs k = none)
+      · apply hoare_modify
+        intro s ⟨hs, he⟩
+        subst he
+        refine ⟨hs, ?_⟩
+        show alookup s0.srcs k = none
+        cases hl : alookup s0.srcs k with
+        | none => rfl
+        | some v => simp [hl] at hnone
+      · intro _
+        exact hoare_newd x o k hn
 macro_rules | `(tactic| dt_lemma) => `(tactic| with_reducible exact dt_execC _ _)
 
 theorem dt_runCb (x : DX) (k : Nat) (p : Payload) : KeepsD x (runCb k p) := by unfold runCb; repeat dt_step x
